@@ -385,3 +385,39 @@ func TestKnown_C19_poolmanager_taker_fee_share_not_exported(t *testing.T) {
 	}
 	t.Log("taker-fee share state survived export/import: finding no longer reproduces")
 }
+
+// TestKnown_C19_cl_full_range_liquidity_recomputed: the per-pool "full range liquidity" total (read by the superfluid
+// valuation of concentrated shares) is not in the genesis; a running node ADDS the position's new total liquidity to it at
+// every position write (creation, partial withdrawal, transfer) and never subtracts, InitGenesis rebuilds it as the sum of
+// the live full-range positions.
+func TestKnown_C19_cl_full_range_liquidity_recomputed(t *testing.T) {
+	n := NewNode(Bootstrap(defaultCfg()))
+	defer n.Close()
+	lo, hi := (cltypes.MinInitializedTick/100)*100, (cltypes.MaxTick/100)*100
+	mustTx(t, n, 5*time.Second, 1, &cltypes.MsgCreatePosition{PoolId: 3, Sender: Actor(1).String(), LowerTick: lo, UpperTick: hi,
+		TokensProvided: sdk.NewCoins(coin("uosmo", 1_000_000), coin("usdc", 1_000_000)), TokenMinAmount0: osmomath.ZeroInt(), TokenMinAmount1: osmomath.ZeroInt()})
+	ps, err := n.App.ConcentratedLiquidityKeeper.GetUserPositions(n.ReadCtx(), Actor(1), 3)
+	if err != nil || len(ps) == 0 {
+		t.Fatalf("harness: no position (%v)", err)
+	}
+	pos := ps[len(ps)-1]
+	mustTx(t, n, 5*time.Second, 1, &cltypes.MsgWithdrawPosition{PositionId: pos.PositionId, Sender: Actor(1).String(), LiquidityAmount: pos.Liquidity.QuoInt64(4)})
+	src, err := n.App.ConcentratedLiquidityKeeper.GetFullRangeLiquidityInPool(n.ReadCtx(), 3)
+	if err != nil {
+		t.Fatalf("harness: %v", err)
+	}
+	imp := exportImport(t, n)
+	defer imp.Close()
+	if _, err := imp.RunBlock(5*time.Second, nil, nil); err != nil {
+		t.Fatal(err)
+	}
+	got, err := imp.App.ConcentratedLiquidityKeeper.GetFullRangeLiquidityInPool(imp.ReadCtx(), 3)
+	if err != nil || !got.Equal(src) {
+		drv.Reproduced(t, "C19-cl-full-range-liquidity-recomputed")
+		if !drv.Known("C19-cl-full-range-liquidity-recomputed") {
+			t.Fatalf("full-range liquidity of pool 3: source %s, imported %s (%v)", src, got, err)
+		}
+		return
+	}
+	t.Log("full-range liquidity total survived export/import: finding no longer reproduces")
+}
